@@ -104,6 +104,19 @@ Theorem stream_body_refuses : forall (content : bytes) (r : request),
   exists s e, sanitize_range (header (B "range") r) = Ok (Some (s, e)) /\ N.of_nat (length content) <= s.
 Proof. exact stream_body_refuses_lemma. Qed.
 
+(** A request with a range (start < end, which is how [sanitize_request] hands a range over) that is answered with
+    a stream gets 206 and a [content-range] that names exactly the bytes the future sends - at least one - out of
+    the whole file (d675f8a; before, it got 200 without [content-range]). *)
+Theorem stream_body_content_range : forall (content : bytes) (r : request) (s e0 : N) (f : option N * list bytes),
+  stream_body_range r = Some (s, e0) -> s < e0 ->
+  stream_body_future true content r = Some f ->
+  let n := N.of_nat (length (concat (snd f))) in
+  0 < n /\
+  stream_body_head content r
+  = (206, [(B "content-range", B "bytes " ++ dec s ++ B "-" ++ dec (s + n - 1) ++ B "/" ++ dec (N.of_nat (length content)))]) /\
+  concat (snd f) = firstn (N.to_nat n) (skipn (N.to_nat s) content).
+Proof. exact stream_body_content_range_lemma. Qed.
+
 (** The connection: for every history of polite requests (any methods, any handlers' replies and use of the
     request body, any split of each body between the head's segment and later, any mix of passed and
     rate-limited requests) the server writes exactly one response per request, in request order ([serve_seq]
@@ -317,6 +330,18 @@ Example ex_closing_history :
    = Some [(Some 21, None, B "streamed file content"); (Some 21, None, []);
            (Some 12, Some (B "bytes 9-20/21"), B "file content"); (Some 3, Some (B "bytes 21-23/290"), B "<he");
            (None, None, B "abcdefg")]).
+Proof. vm_compute. repeat split. Qed.
+(** [stream_body] on a 21-byte file: a range reaching past the end is cut (206, 12 bytes), a range starting at the end is
+    refused, no range streams the whole file *)
+Example ex_stream_body :
+  let c := B "streamed file content" in
+  let q v := d_request 0 (B "GET") (B "/s/file.txt") [(B "range", v)] in
+  stream_body_range (q (B "bytes=9-999")) = Some (9, 1000) /\
+  stream_body_future true c (q (B "bytes=9-999")) = Some (Some 12, [B "file content"]) /\
+  stream_body_head c (q (B "bytes=9-999")) = (206, [(B "content-range", B "bytes 9-20/21")]) /\
+  stream_body_future true c (q (B "bytes=21-23")) = None /\
+  stream_body_future true c (q (B "lines=1-2")) = Some (Some 21, [c]) /\
+  stream_body_head c (q (B "lines=1-2")) = (200, []).
 Proof. vm_compute. repeat split. Qed.
 (** TRACE (and CONNECT) declare no body to kvarn whatever their content-length says *)
 Example ex_trace_declares_nothing :
